@@ -274,6 +274,13 @@ fn archives(rep: &mut Report, arch_lines: &[Value], args: &Args, nworkers: usize
                 push(&mut jobs, sig, format!("extra|{label}|{rop}|{}", op["n"]), rop, &arg, data.clone(), json!(label), None);
             }
         }
+        if label.starts_with("size.") {
+            // an object that fits the empty block exactly as it was, and one a page smaller
+            for len in [arch.fit_len(), arch.fit_len().saturating_sub(256)] {
+                let rop: &'static str = Box::leak(format!("publish:{len}").into_boxed_str());
+                push(&mut jobs, format!("archive/extra:{label}"), format!("extra|{label}|{rop}|X"), rop, &arch.name_x, data.clone(), json!(label), None);
+            }
+        }
     }
     rep.add_note(PID, "archive_cases_from_model", model_jobs as u64);
     rep.add_note(PID, "archive_cases_extra", (jobs.len() - model_jobs) as u64);
